@@ -96,18 +96,41 @@ def events : Nat → Nat → Bytes → Option Track
         | none => none
         | some t => some (se.ev :: t)
 
+def take4 (bs : Bytes) : Option (Bytes × Bytes) :=
+  if bs.length < 4 then none else some (bs.take 4, bs.drop 4)
+
+def be32val (l : Bytes) : Option Nat :=
+  match l with
+  | [a, b, c, d] => if a ≥ 256 ∨ b ≥ 256 ∨ c ≥ 256 ∨ d ≥ 256 then none
+                    else some (a * 16777216 + b * 65536 + c * 256 + d)
+  | _ => none
+
+/-- one track chunk: exact length, body parsed to its end; returns the bytes after the chunk -/
+def chunk1 (bs : Bytes) : Option (Track × Bytes) :=
+  match take4 bs with
+  | none => none
+  | some (typ, r1) =>
+    match take4 r1 with
+    | none => none
+    | some (l4, rest) =>
+      match be32val l4 with
+      | none => none
+      | some len =>
+        if typ ≠ MTrk then none
+        else if rest.length < len then none
+        else match events (len + 1) 0 (rest.take len) with
+          | some t => some (t, rest.drop len)
+          | none => none
+
 def chunks : Nat → Bytes → Option (List Track)
   | 0, bs => if bs = [] then some [] else none
   | k+1, bs =>
-    match bs with
-    | 0x4D :: 0x54 :: 0x72 :: 0x6B :: l0 :: l1 :: l2 :: l3 :: rest =>
-      let len := l0 * 16777216 + l1 * 65536 + l2 * 256 + l3
-      if l0 ≥ 256 ∨ l1 ≥ 256 ∨ l2 ≥ 256 ∨ l3 ≥ 256 then none
-      else if rest.length < len then none
-      else match events (len + 1) 0 (rest.take len), chunks k (rest.drop len) with
-        | some t, some ts => some (t :: ts)
-        | _, _ => none
-    | _ => none
+    match chunk1 bs with
+    | none => none
+    | some (t, r) =>
+      match chunks k r with
+      | none => none
+      | some ts => some (t :: ts)
 
 def division (hi lo : Nat) : Option TimeFormat :=
   if hi ≥ 256 ∨ lo ≥ 256 then none
@@ -116,18 +139,38 @@ def division (hi lo : Nat) : Option TimeFormat :=
     let fps := 256 - hi
     if fps = 24 ∨ fps = 25 ∨ fps = 29 ∨ fps = 30 then some (.smpte fps lo) else none
 
+def take2 (bs : Bytes) : Option (Nat × Bytes) :=
+  match bs with
+  | a :: b :: r => if a ≥ 256 ∨ b ≥ 256 then none else some (a * 256 + b, r)
+  | _ => none
+
+def rawDivision (bs : Bytes) : Option (TimeFormat × Bytes) :=
+  match bs with
+  | a :: b :: r => (division a b).map (fun tf => (tf, r))
+  | _ => none
+
 /-- the strict parser: `some content` iff the bytes are a structurally valid SMF 1.0 file -/
 def parse (bs : Bytes) : Option File :=
-  match bs with
-  | 0x4D :: 0x54 :: 0x68 :: 0x64 :: 0 :: 0 :: 0 :: 6 :: f0 :: f1 :: n0 :: n1 :: d0 :: d1 :: rest =>
-    let fmt := f0 * 256 + f1
-    let n := n0 * 256 + n1
-    if f0 ≥ 256 ∨ f1 ≥ 256 ∨ n0 ≥ 256 ∨ n1 ≥ 256 then none
-    else if fmt > 2 ∨ n = 0 ∨ (fmt = 0 ∧ n ≠ 1) then none
-    else match division d0 d1, chunks n rest with
-      | some tf, some ts => some ⟨fmt, tf, ts⟩
-      | _, _ => none
-  | _ => none
+  match take4 bs with
+  | none => none
+  | some (typ, r1) =>
+  match take4 r1 with
+  | none => none
+  | some (l4, r2) =>
+  if typ ≠ MThd ∨ l4 ≠ [0, 0, 0, 6] then none else
+  match take2 r2 with
+  | none => none
+  | some (fmt, r3) =>
+  match take2 r3 with
+  | none => none
+  | some (n, r4) =>
+  match rawDivision r4 with
+  | none => none
+  | some (tf, rest) =>
+    if fmt > 2 ∨ n = 0 ∨ (fmt = 0 ∧ n ≠ 1) then none
+    else match chunks n rest with
+      | some ts => some ⟨fmt, tf, ts⟩
+      | none => none
 
 --@driver strict. Strict.handle
 def handle (op : String) (args : List String) : String :=
